@@ -20,6 +20,7 @@ import (
 	"strings"
 	"sync"
 	"sync/atomic"
+	"time"
 	"unsafe"
 )
 
@@ -53,11 +54,17 @@ const (
 	OpRecvWait  // internal: receiver committed and blocked in the channel
 	OpTryLock   // sync.(RW)Mutex.TryLock: never blocks, reply 2 = acquired, 3 = busy
 	OpTryRLock  // sync.RWMutex.TryRLock
+	OpStuck     // internal (from the baton's watchdog): no thread reached a scheduling point for StuckTimeout
 )
 
-var opNames = [...]string{"start", "done", "lock", "lockwait", "unlock", "rlock", "runlock", "send", "recv", "resume", "close", "yield", "now", "choose", "choosefree", "spawn", "step", "trysend", "tryrecv", "peekclock", "setclock", "sendwait", "recvwait", "trylock", "tryrlock"}
+var opNames = [...]string{"start", "done", "lock", "lockwait", "unlock", "rlock", "runlock", "send", "recv", "resume", "close", "yield", "now", "choose", "choosefree", "spawn", "step", "trysend", "tryrecv", "peekclock", "setclock", "sendwait", "recvwait", "trylock", "tryrlock", "stuck"}
 
 func (o Op) String() string { return opNames[o] }
+
+// StuckTimeout: a running thread that neither reaches a scheduling point nor ends within this much real
+// time is blocked on something the model does not own (a real timer, real I/O) or spins. It is detached:
+// from then on it runs as an uncontrolled goroutine and the execution goes on without it.
+var StuckTimeout = 20 * time.Second
 
 const abortVal = int64(-0x7fffffffffffff01)
 
@@ -381,12 +388,14 @@ func setGoid(tid int) {
 
 func threadMain(run *run, tid int, fn func()) {
 	setGoid(tid)
+	epoch := Epoch()
 	defer run.wg.Done()
 	defer func() {
 		if r := recover(); r != nil {
 			run.notePanic(tid, fmt.Sprintf("%v\n%s", r, debug.Stack()))
 		}
-		if !isAborted(tid) {
+		// (a goroutine detached in an earlier execution may end during a later one: it must stay silent)
+		if !isAborted(tid) && Epoch() == epoch {
 			batonSend(int32(tid), OpDone, 0, 0)
 		}
 	}()
@@ -396,6 +405,18 @@ func threadMain(run *run, tid int, fn func()) {
 
 //go:norace
 func isAborted(tid int) bool { return aborted[tid] != 0 }
+
+// detach makes thread tid an uncontrolled goroutine: Cur() no longer recognises it, and the slot gets a
+// fresh label so that the goroutine can never be mistaken for a later thread with the same index.
+//
+//go:norace
+func detach(tid int) {
+	aborted[tid] = 1
+	labelGen++
+	labelCtx[tid] = pprof.WithLabels(context.Background(), pprof.Labels("vtid", strconv.Itoa(tid), "gen", strconv.FormatInt(labelGen, 10)))
+}
+
+var labelGen int64
 
 // ---------------------------------------------------------------------------
 // controller side
@@ -461,6 +482,7 @@ type Exec struct {
 	WaitInfo  string
 	Foreign   int64
 	TicksUsed int
+	Detached  int // threads detached by the watchdog (see StuckTimeout)
 	// MaxBlocked reports, per OpYield resource id, the set of thread ids that were
 	// observed disabled (blocked on a lock or channel) at some node — used by the
 	// "not queued" monitors.
@@ -542,8 +564,10 @@ func Execute(opt Options, prefix []int, bodies []func()) *Exec {
 	}
 	r.loop()
 	atomic.StoreInt32(&active, 0)
-	if !r.x.Deadlock && !r.x.Livelock {
+	if !r.x.Deadlock && !r.x.Livelock && r.x.Detached == 0 {
 		r.wg.Wait()
+	} else if r.x.Detached > 0 && !r.x.Deadlock && !r.x.Livelock {
+		// detached goroutines keep running on their own; nothing to wait for
 	} else {
 		Leaked = true
 		for i, t := range r.thr {
@@ -577,6 +601,18 @@ func (r *run) lock(a uintptr) *lockState {
 func (r *run) collect() {
 	for r.running > 0 {
 		m := batonRecv()
+		if m.op == OpStuck {
+			for i, t := range r.thr {
+				if t.state == 0 {
+					t.state = 2
+					r.running--
+					detach(i)
+					r.x.Detached++
+					r.x.Trace = append(r.x.Trace, fmt.Sprintf("t%d detached: no scheduling point within %v (blocked outside the model)", i, StuckTimeout))
+				}
+			}
+			continue
+		}
 		t := r.thr[m.tid]
 		switch m.op {
 		case OpDone:
